@@ -173,7 +173,7 @@ def run_check(pid, tier, seed, replay=None, write_evidence=True):
                 else:
                     rc = max(rc, 2)
                     lines.append("MACHINERY: TLC failed on %s/%s:\n%s" % (j["module"], j["cfg"], "\n".join(r["out"].splitlines()[-25:])))
-            if j.get("expect") == "violation" and r["ok"]:
+            if j.get("expect") == "violation" and not r["violated"]:      # a TLC failure is not the expected counterexample
                 rc = max(rc, 2)
                 lines.append("MACHINERY: model %s/%s was expected to exhibit a counterexample" % (j["module"], j["cfg"]))
         # ---- 7. classify
@@ -199,7 +199,11 @@ def run_check(pid, tier, seed, replay=None, write_evidence=True):
                 for f in dr:
                     drift_by[f] = drift_by.get(f, 0) + 1
                 if drift <= 5:
-                    lines.append("MODEL-DRIFT property=%s event=%s %s (the code differs from the as-built model; not a violation)" % (pid, eid, dr[:3]))
+                    os.makedirs(os.path.join(ROOT, "replays", pid), exist_ok=True)
+                    dpath = os.path.join(ROOT, "replays", pid, "drift_%s_%s.json" % (ev.get("kind"), event_key(ev)[:10]))
+                    with open(dpath, "w") as f:
+                        json.dump({"property": pid, "hashseed": ev.get("hashseed", 0), "case": ev.get("case"), "failed": dr, "event": ev}, f, indent=1)
+                    lines.append("MODEL-DRIFT property=%s event=%s %s (the code differs from the as-built model; not a violation) see %s" % (pid, eid, dr[:3], dpath))
             failed = [f for f in failed if not f.startswith("DRIFT:")]
             unlisted = []
             for cl in failed:
